@@ -436,6 +436,14 @@ def run(repo: Repo, chk: Check, thorough: bool = False) -> None:
                f'dominated by `{tp} == <wrapped name>`' if same else
                f'the kind is changed without testing that the wrapped name is the assigned name: `create = staticmethod(make)` turns `make` into a static method '
                'and `create` is never documented', repo.loc(osd.mod, ks))
+    # ... and the wrapper applied LAST decides: Python re-wraps whatever the name held, so the new kind is not conditioned on the kind the function had
+    # (`f = classmethod(f)` after `@staticmethod def f` is a class method)
+    for ks in kind_sets:
+        hist = [x for x, pol in cf_o.dominating_tests(ks) if any(isinstance(a, ast.Attribute) and a.attr == 'kind' for a in ast.walk(x))]
+        chk.ob('R03.10', f'{MV}._handleOldSchoolMethodDecoration :: `{norm(ks)[:50]}` whatever kind the function had', not hist,
+               'no test of the previous kind' if not hist else
+               f'only under `{norm(hist[0])[:60]}`: a method that already carries the other wrapper keeps its old kind - `@staticmethod def make(..)` followed by '
+               '`make = classmethod(make)` is documented as a static method where Python has a class method', repo.loc(osd.mod, ks))
     # an alias is only recorded for a name that is not (yet) documented in that scope: re-binding a documented variable to another name is a new value
     # of that variable, not an alias
     ha = repo.func('pydoctor.astbuilder._handleAliasing')
@@ -453,7 +461,7 @@ def run(repo: Repo, chk: Check, thorough: bool = False) -> None:
                f'reached only when `{ap[1]} not in {ap[0]}.contents`' if free else
                'an assignment `name = OTHER_NAME` to an already documented variable is swallowed as an alias: the variable keeps the type and value of its '
                'earlier assignment, the attribute docstring that follows is lost', repo.loc(ha.mod, st_))
-    chk.require('R03.10', 3)
+    chk.require('R03.10', 5)
 
 
 
